@@ -107,7 +107,7 @@ func (g *PackageLoader) localConfig(pkg *packages.Package, name string) method.L
 		fns = map[string]method.LocalOpts{}
 		for _, file := range pkg.Syntax {
 			for _, decl := range file.Decls {
-				if fn, ok := decl.(*ast.FuncDecl); ok {
+				if fn, ok := decl.(*ast.FuncDecl); ok && fn.Recv == nil {
 					lines := parse.SettingLines(parse.CommentToString(fn.Doc))
 					if len(lines) == 0 {
 						continue
